@@ -53,47 +53,19 @@ def run(ck, ctx):
                 ck.ob("T-SHAPE.table", f"{mode}: `{fkey}` defaults to an empty {shape}", fi.default_shape() == shape,
                       f"default is {fi.default_shape()}", f"{fi.owner}.{fkey}")
     ck.floor("T-SHAPE.table", 15 * 9)
-    # primary_key is a list on every path
-    pk = m.func(f"{BASE_MOD}:BaseData.populate_keys")
-    src = ast.unparse(pk.node)
-    first_if = [s for s in pk.node.body if isinstance(s, ast.If)]
-    ok = bool(first_if) and ast.unparse(first_if[0].test) == "not self.primary_key" and \
-        any(S.is_self_call("get_pk_from_columns_and_constraints")(x) for b in first_if[0].body for x in ast.walk(b))
-    ck.ob("T-SHAPE.pk", "populate_keys: an empty / missing primary_key is recomputed", ok,
-          "primary_key defaults to None; it must be replaced by a list before the entry is emitted", pk.loc())
-    g = m.func(f"{BASE_MOD}:BaseData.get_pk_from_columns_and_constraints")
-    stores = [n for n in ast.walk(g.node) if isinstance(n, ast.Assign) and any(access_path(t) == "self.primary_key" for t in n.targets if isinstance(t, ast.Attribute))]
-    ok = len(stores) == 1 and isinstance(stores[0].value, ast.Name) and stores[0] is g.node.body[-1]
-    if ok:
-        v = stores[0].value.id
-        binds = [n for n in ast.walk(g.node) if isinstance(n, ast.Assign) and any(isinstance(t, ast.Name) and t.id == v for t in n.targets)]
-        ok = len(binds) == 1 and isinstance(binds[0].value, ast.List)
-    ck.ob("T-SHAPE.pk", "get_pk_from_columns_and_constraints binds self.primary_key to a locally built list on every path", ok, "", g.loc())
-    post = m.func(f"{BASE_MOD}:BaseData.__post_init__")
-    ck.ob("T-SHAPE.pk", "__post_init__ runs populate_keys unconditionally", any(
-        isinstance(s, ast.Expr) and S.is_self_call("populate_keys")(s.value) for s in post.node.body), "", post.loc())
+    # primary_key is a list whatever the statement provides (table objects built and emitted by the abstractly evaluated output layer)
+    _check_pk_list(ck, ctx, dc)
     # to_dict / filter (shared with C10)
     C10._check_filter(ck, ctx)
     # ---- column skeleton
-    sb = m.parser_method("set_base_column_propery")
-    lits = [n for n in ast.walk(sb.node) if isinstance(n, ast.Dict)]
-    ok = any({k.value for k in d.keys if isinstance(k, ast.Constant)} >= {"name", "type", "size"} for d in lits)
-    ck.ob("T-SHAPE.column", "the column literal carries name, type and size", ok, "", sb.loc())
+    # (that every column entry carries name / type / size and that only column dicts reach `columns` is decided on the final output of
+    # the explored statements - O-shape below; here: the option keys are must-assigned on EVERY path of p_defcolumn)
     dfc = m.parser_method("p_defcolumn")
     mk = must_keys(dfc.node, "p[0]")
     for k in sorted(OPTION_KEYS):
         ck.ob("T-SHAPE.column", f"p_defcolumn assigns `{k}` on every path", k in mk,
               f"must-assigned keys of p[0]: {sorted(mk)}: a column without `{k}` breaks the documented column shape "
               "(and the key collection of the output layer)", dfc.loc())
-    pet = m.parser_method("p_expression_table")
-    apps = [n for n in ast.walk(pet.node) if isinstance(n, ast.Call) and isinstance(n.func, ast.Attribute) and n.func.attr == "append"
-            and ast.unparse(n.func.value) == "p[0]['columns']"]
-    ck.ob("T-SHAPE.column", "p_expression_table appends to columns at exactly one site", len(apps) == 1, "", pet.loc())
-    for a in apps:
-        atoms = guard_atoms(pet.node, S.stmt_of(pet, a))
-        arg = ast.unparse(a.args[0])
-        ok = (f"'type' in {arg}", True) in atoms and (f"'name' in {arg}", True) in atoms
-        ck.ob("T-SHAPE.column", "only dicts having `name` and `type` are appended to columns", ok, f"guards: {atoms}", pet.loc(a))
     # nothing deletes a required column key
     n_del = 0
     for f in m.all_funcs():
@@ -118,14 +90,10 @@ def run(ck, ctx):
                       "`unique` / `nullable` of a column must be booleans", f.loc(ke.node))
     ck.floor("T-SHAPE.bool", 6)
     gcp = m.parser_method("get_column_properties")
-    seeds = {ast.unparse(n.targets[0]): n.value for n in gcp.node.body if isinstance(n, ast.Assign) and isinstance(n.targets[0], ast.Name)}
-    for nm in ("unique", "nullable", "pk"):
-        v = seeds.get(nm)
-        ck.ob("T-SHAPE.bool", f"get_column_properties: {nm} starts as a boolean constant", isinstance(v, ast.Constant) and isinstance(v.value, bool), "", gcp.loc())
     for n in ast.walk(gcp.node):
         if isinstance(n, ast.Assign) and isinstance(n.targets[0], ast.Name) and n.targets[0].id in ("unique", "nullable", "pk"):
-            ck.ob("T-SHAPE.bool", f"get_column_properties: {n.targets[0].id} = {ast.unparse(n.value)}",
-                  isinstance(n.value, ast.Constant) and isinstance(n.value.value, bool), "", gcp.loc(n))
+            ck.ob("T-SHAPE.bool", f"get_column_properties: {n.targets[0].id} = {ast.unparse(n.value)[:40]}", _boolish(n.value),
+                  "`unique` / `nullable` / `pk` flow into the column entry: they must be boolean-valued", gcp.loc(n))
     # ---- JSON
     scope = [f for f in m.all_funcs() if f.module.name.startswith("simple_ddl_parser.output") or
              (f.cls and m.in_parser_family((f.module.name, f.cls)))]
@@ -154,41 +122,10 @@ def run(ck, ctx):
                   "their uses are checked by T-SETORD)", f.loc(n))
     S.t_setord(ck, ctx, scope)
     ck.ob("T-JSON", "package scanned for non-JSON values", True, f"{len(scope)} functions", "")
-    psd = m.func("simple_ddl_parser.output.core:Output.process_statement_data")
-    ret = psd.node.body[-1]
-    ok = isinstance(ret, ast.Return) and isinstance(ret.value, ast.Name)
-    if ok:
-        binds = [n for n in ast.walk(psd.node) if isinstance(n, ast.Assign) and any(isinstance(t, ast.Name) and t.id == ret.value.id for t in n.targets)]
-        param = [p for p in psd.params if p != "self"][0]
-        ok = bool(binds) and all(ast.unparse(b.value) in (param,) or (isinstance(b.value, ast.Call) and ast.unparse(b.value.func).endswith(".to_dict"))
-                                 for b in binds)
-    ck.ob("T-JSON", "Output.process_statement_data returns a dict (to_dict() of the table object, or the parse-result dict)", ok,
-          "a table object itself must never be placed in the result", psd.loc())
-    fmt = m.func("simple_ddl_parser.output.core:Output.format")
-    apps = [n for n in ast.walk(fmt.node) if isinstance(n, ast.Call) and isinstance(n.func, ast.Attribute) and n.func.attr == "append"
-            and access_path(n.func.value) == "self.final_result"]
-    for a in apps:
-        arg = a.args[0]
-        ok = isinstance(arg, ast.Name) and any(isinstance(b, ast.Assign) and any(isinstance(t, ast.Name) and t.id == arg.id for t in b.targets)
-                                                and S.is_self_call("process_statement_data")(b.value) for b in ast.walk(fmt.node))
-        ck.ob("T-JSON", "Output.format appends process_statement_data(...) results", ok, ast.unparse(a)[:70], fmt.loc(a))
-    # ---- json_dump
-    run_f = m.parser_method("run")
-    dumps = [n for n in ast.walk(run_f.node) if isinstance(n, ast.Call) and ast.unparse(n.func) == "json.dumps"]
-    ck.ob("T-JSONDUMP", "run() calls json.dumps once", len(dumps) == 1, "", run_f.loc())
-    for d in dumps:
-        st = S.stmt_of(run_f, d)
-        atoms = guard_atoms(run_f.node, st)
-        kw = {k.arg for k in d.keywords}
-        ok = [ast.unparse(a) for a in d.args] == ["self.tables"] and kw <= {"indent", "ensure_ascii", "separators", "sort_keys"} \
-            and isinstance(st, ast.Assign) and ast.unparse(st.targets[0]) == "self.tables" and st.value is d and ("json_dump", True) in atoms \
-            and all(a[0] == "json_dump" or "dialect_by_name" in a[0] for a in atoms)
-        ck.ob("T-JSONDUMP", "if json_dump: self.tables = json.dumps(self.tables)", ok,
-              f"found `{ast.unparse(st)[:80]}` under {atoms}: the encoding must be of exactly the result object, with no default= / skipkeys "
-              "that would hide an unencodable value", run_f.loc(d))
-        last = run_f.node.body[-1]
-        ck.ob("T-JSONDUMP", "run() returns self.tables right after", isinstance(last, ast.Return) and ast.unparse(last.value) == "self.tables"
-              and run_f.node.body[-2] is S.stmt_of(run_f, st) or run_f.node.body[-2] is _top(run_f, st), "", run_f.loc(last))
+    # (that the formatter puts dicts - never table objects - into the result is decided on the final output: O-shape below)
+    # ---- json_dump: run() evaluated abstractly on flat results of every kind returns exactly the JSON encoding of what it returns
+    # without the flag; the encoder is called without options that would hide an unencodable value
+    _check_json_dump(ck, ctx)
     # ---- the final output of the fixed points' tables has the documented shape (output layer evaluated abstractly)
     from ..rules.fragments import run_fragments
     from ..specs.clauses import GROUPS
@@ -205,6 +142,108 @@ def run(ck, ctx):
                        "declined: `primary_key lists names of that table's columns` (value-level)",
                        "reviewed: prepare_alter_columns can append a reference-only column record for an ALTER naming a column the table "
                        "does not have (ill-formed DDL, outside `supported, well-formed`)"]
+
+
+def _check_pk_list(ck, ctx, dc):
+    """for every mode class: a table built without primary_key / with None (with and without a column declared PRIMARY KEY inline) or
+    with the list of a table-level clause is emitted with `primary_key` bound to a list of exactly those columns - however
+    populate_keys and its helpers are written"""
+    from ..objabs import ObjInterp
+    from ..pyabs import PyRaise, LexUnknown, NonUniform
+    m = ctx.model
+    n = 0
+
+    def col(name, pk):
+        return {"name": name, "type": "int", "size": None, "references": None, "unique": False, "primary_key": pk, "nullable": not pk,
+                "default": None, "check": None}
+    for mode in sorted(dc.dialect_by_name):
+        it = ObjInterp(m, ctx.grammar.tokens_ns, dc)
+        td = it.clsd(("simple_ddl_parser.output.table_data", "TableData"))
+        # (what the grammar actions hand over: no primary_key, None, or the non-empty list of a table-level PRIMARY KEY clause)
+        for given in ("absent", None, ["a"]):
+            for cols, want in (([], []), ([col("a", False), col("b", True)], ["b"])):
+                if given == ["a"]:
+                    if not cols:
+                        continue
+                    cols, want = [col("a", False), col("b", False)], ["a"]
+                kwargs = {"output_mode": mode, "table_name": "t", "columns": [dict(c) for c in cols], "init_data": {"table_name": "t"}}
+                if given != "absent":
+                    kwargs["primary_key"] = given if given is None else list(given)
+                try:
+                    cls = it.call_func(it.lookup(td, "get_dialect_class"), [{"output_mode": mode}], {}, self_obj=td)
+                    inst = it.construct_inst(cls, [], kwargs)
+                    out = it.call_func(it.lookup(inst.cls, "to_dict"), [], {}, self_obj=inst)
+                    got = out.get("primary_key", "<missing>") if isinstance(out, dict) else "<not a dict>"
+                    ok, detail = isinstance(got, list) and got == want, f"primary_key is {got!r}, expected {want!r}"
+                except PyRaise as pr:
+                    ok, detail = False, f"raises {type(pr.exc).__name__}: {pr.exc}"
+                except (LexUnknown, NonUniform) as e:
+                    raise AnalysisError(f"table construction outside the interpreted subset (mode {mode}): {e}")
+                n += 1
+                if not ok:
+                    ck.ob("T-SHAPE.pk", f"{mode}: primary_key {'not given' if given == 'absent' else repr(given)}, {len(cols)} columns", False,
+                          "primary_key defaults to None; it must be a list (of the key columns) before the entry is emitted; " + detail,
+                          "BaseData.__post_init__ / populate_keys (evaluated abstractly)")
+    ck.ob("T-SHAPE.pk", f"all {n} (mode, given primary_key, columns) combinations", True,
+          "the emitted table entry has primary_key bound to a list holding the inline key columns", "BaseData.__post_init__ / populate_keys (evaluated abstractly)")
+
+
+def _check_json_dump(ck, ctx):
+    import copy
+    from ..objabs import run_tail, abstract_json_dumps, ShapeMismatch
+    from ..pyabs import PyRaise, LexUnknown, NonUniform, deep_eq
+    from ..pyabs import W
+    m = ctx.model
+
+    def w(*xs):
+        return W(list(xs) + list(xs)[: 6 - len(xs)])
+
+    def table(name):
+        return {"table_name": name, "schema": None, "primary_key": None, "index": [], "partitioned_by": [], "tablespace": None, "checks": [],
+                "columns": [{"name": w("a", "Col", "c_1"), "type": w("int", "TEXT", "num_9"), "size": None, "references": None, "unique": False,
+                             "primary_key": False, "nullable": True, "default": None, "check": None}]}
+    ents = {
+        "table": table(w("t", "Orders", "x_1")),
+        "sequence": {"schema": None, "sequence_name": w("s1", "Seq", "q_2"), "increment": 1},
+        "type": {"schema": w("a", "B", "c_1"), "type_name": w("ty", "Mood", "t_3"), "base_type": "ENUM", "properties": {"values": [w("'x'", "'It'", "'z z'")]}},
+        "domain": {"schema": None, "domain_name": w("d", "Dom", "d_4"), "base_type": "int", "properties": {}},
+        "schema": {"schema_name": w("sc", "Sch", "s_5")},
+        "property": {"name": w("p", "Prop", "p_8"), "value": w("on", "1", "x")},
+    }
+    flats = {"empty": [], "one table": [ents["table"]], "every kind": list(ents.values()),
+             "two tables and a sequence": [ents["table"], table(w("u", "Items", "y_2")), ents["sequence"]]}
+    n = 0
+    for name, flat in flats.items():
+        for grouped in (False, True):
+            for mode in ("sql", "bigquery", "hql"):
+                try:
+                    plain, _d = run_tail(ctx, copy.deepcopy(flat), group_by_type=grouped, output_mode=mode)
+                    dumped, _d = run_tail(ctx, copy.deepcopy(flat), group_by_type=grouped, output_mode=mode, json_dump=True)
+                    want = abstract_json_dumps(plain)
+                    try:
+                        ok = deep_eq(dumped, want)
+                    except NonUniform:
+                        ok = False
+                    detail = "" if ok else f"json_dump=True returns {dumped!r:.200}, json.dumps of the plain result is {want!r:.200}"
+                except PyRaise as pr:
+                    ok, detail = False, f"raises {type(pr.exc).__name__}: {pr.exc}"
+                except (LexUnknown, NonUniform, ShapeMismatch) as e:
+                    raise AnalysisError(f"Parser.run outside the interpreted subset ({name}): {e}")
+                n += 1
+                ck.ob("T-JSONDUMP", f"run(json_dump=True, group_by_type={grouped}, output_mode={mode!r}) on: {name}", ok,
+                      "json_dump=True returns exactly the JSON encoding of the result returned without it" + ("" if ok else "; " + detail),
+                      "Parser.run (evaluated abstractly)")
+    run_f = m.parser_method("run")
+    sites = 0
+    for f in [run_f] + [g for g in m.all_funcs() if g.module.name in ("simple_ddl_parser.parser", "simple_ddl_parser.output.core") and g is not run_f]:
+        for d in ast.walk(f.node):
+            if isinstance(d, ast.Call) and ast.unparse(d.func) in ("json.dumps", "json.dump", "dumps", "dump"):
+                sites += 1
+                kw = {k.arg for k in d.keywords}
+                ck.ob("T-JSONDUMP", f"{f.qual}: {ast.unparse(d.func)}(...) keyword arguments", kw <= {"indent", "ensure_ascii", "separators", "sort_keys", "fp", "obj"},
+                      f"keywords {sorted(str(k) for k in kw)}: no default= / skipkeys / cls / ** that would hide or change an unencodable value", f.loc(d))
+    if not sites:
+        raise AnalysisError("anchor vanished: no json.dumps / json.dump call in parser.py / output/core.py")
 
 
 def _top(f, st):
